@@ -243,7 +243,13 @@ where
     let total = wrapping_pow2::<Probability>(PRECISION);
 
     if infer_last_probability {
-        if accum >= total || laps_or_zeros != 0 {
+        // `total` wraps to zero if `PRECISION == Probability::BITS`; then every `accum` is
+        // below the (unrepresentable) total and only an empty table (`accum == 0`, which would
+        // leave the whole probability mass to the inferred symbol) has to be refused.
+        if (accum >= total && total != Probability::zero())
+            || accum == Probability::zero()
+            || laps_or_zeros != 0
+        {
             return Err(());
         }
         let symbol = symbols.next().ok_or(())?;
